@@ -65,6 +65,23 @@ def tie(ctx, model_ok=True):
                 continue
             pairs[t_alias + '|' + repr(ty)] = t_exp
             yield specs, ty, t_alias, desc + '+' + how
+        # directed: MANY aliases to one small collection, one alias to a LARGE collection, aliases inside an aliased subtree
+        S, Q, M = loadcase.S, loadcase.Q, loadcase.M
+        for n_alias in (2, 10, 51, 60, 200):
+            small = M([(S('x'), S('1', 'int'))])
+            doc = Q([small] * n_alias)
+            for ty in (('list', 0, ('dict', 3, 'str', 'int')), 'any', ('list', 0, 'any')):
+                t_alias, t_exp = loadcase.serialize(doc), loadcase.serialize(encode.copy_tree(doc))
+                pairs[t_alias + '|' + repr(ty)] = t_exp
+                yield [], ty, t_alias, 'many-aliases'
+        for rows in (70, 300):
+            big = Q([Q([S(str(i), 'int')]) for i in range(rows)])
+            inner = M([(S('p'), big), (S('q'), big)])
+            doc = M([(S('a'), inner), (S('b'), inner)])
+            for ty in (('dict', 3, 'str', ('dict', 3, 'str', ('list', 0, ('list', 0, 'int')))), 'any'):
+                t_alias, t_exp = loadcase.serialize(doc), loadcase.serialize(encode.copy_tree(doc))
+                pairs[t_alias + '|' + repr(ty)] = t_exp
+                yield [], ty, t_alias, 'big-alias'
         names = ['K0']
         for specs, ty, text, desc in loadcase.gen_cases(rnd, 6, 1, hooks=False):
             for cyc in CYCLES:
